@@ -63,6 +63,12 @@ RULES = {
 }
 
 WIDTHS = (3, 9)
+# Triage: the Edit/Text cache fault described in World.rows_per_item (an Edit that lost the focus still
+# returning its cursor-shifted row) has been repaired in the tree ("fix:" commit in urwid/widget/edit.py:
+# Edit.render no longer goes through Text's focus-blind cached render), so the alternative rendering is
+# no longer admitted: every item that is not the focus must show its focus=False rendering, which is what
+# the statement's "its items' renderings" means.  Set to True only to judge a tree without that fix.
+ADMIT_STALE_EDIT = False
 MAXROWS_CLAMP = (1, 6)
 TALL = 7
 
@@ -352,7 +358,7 @@ class World:
         width = self.size[0]
         base = [expected_rows(k, lab, width, self.edit_state(i), self.focus and i == focus_idx) for i, (k, lab) in enumerate(self.ref)]
         variants = [base]
-        if self.focus:
+        if self.focus and ADMIT_STALE_EDIT:
             for i, (k, lab) in enumerate(self.ref):
                 if k[0] == "e" and i != focus_idx:
                     alt = expected_rows(k, lab, width, self.edit_state(i), True)
